@@ -67,18 +67,27 @@ func fieldKey(info *types.Info, sel *ast.SelectorExpr) string {
 	return n.Obj().Name() + "." + sel.Sel.Name
 }
 
-// rootFieldSelectors: walking down x.F.G[i].H returns every selector on the spine.
-func spineSelectors(e ast.Expr) []*ast.SelectorExpr {
+// spineSelectors: walking down x.F.G[i].H returns every selector on the spine whose storage is written
+// when the whole expression is written: the walk stops below a selector whose operand is a pointer
+// (x.p.f = v writes the pointee, not x's field p). Slice and map elements count as content of the field.
+func spineSelectors(info *types.Info, e ast.Expr) []*ast.SelectorExpr {
 	var out []*ast.SelectorExpr
 	for {
 		switch x := e.(type) {
 		case *ast.SelectorExpr:
 			out = append(out, x)
+			if tv, ok := info.Types[x.X]; ok {
+				if _, isPtr := tv.Type.Underlying().(*types.Pointer); isPtr {
+					// x.X is a pointer: x.X's own storage is not written. Only continue if x.X is a plain
+					// identifier chain start (nothing more to report anyway).
+					return out
+				}
+			}
 			e = x.X
 		case *ast.IndexExpr:
 			e = x.X
 		case *ast.StarExpr:
-			e = x.X
+			return out
 		case *ast.ParenExpr:
 			e = x.X
 		case *ast.SliceExpr:
@@ -97,7 +106,7 @@ func fieldWriters(fis []*FuncInfo, tracked map[string]bool) []fieldWrite {
 		}
 		info := fi.Pkg.TypesInfo
 		note := func(e ast.Expr, how string, pos token.Pos) {
-			for _, sel := range spineSelectors(e) {
+			for _, sel := range spineSelectors(info, e) {
 				if k := fieldKey(info, sel); tracked[k] {
 					out = append(out, fieldWrite{Func: fi.Name(), Field: k, How: how, Pos: pos})
 				}
@@ -128,6 +137,11 @@ func fieldWriters(fis []*FuncInfo, tracked map[string]bool) []fieldWrite {
 						fn := s.Obj().(*types.Func)
 						sig := fn.Type().(*types.Signature)
 						if _, ptr := sig.Recv().Type().(*types.Pointer); ptr && !isReadOnlyMethod(fn.Name()) {
+							if tv, ok := info.Types[sel.X]; ok {
+								if _, isPtr := tv.Type.Underlying().(*types.Pointer); isPtr {
+									return true // the field holds a pointer; the callee mutates the pointee
+								}
+							}
 							note(sel.X, "method "+fn.Name(), n.Pos())
 						}
 					}
